@@ -16,6 +16,13 @@ def make_comb(spec):
         return lambda p: np.sum(p)
     if spec == "negmax":
         return lambda p: -np.max(p)
+    if spec == "logit":
+        # a valid combiner whose value is -inf as soon as one p-value is >= 1: whole groups of rows tie at -inf
+        def logit(p):
+            with np.errstate(divide="ignore"):
+                p = np.asarray(p, dtype=float)
+                return float(np.sum(np.log((1.0 - np.minimum(p, 1.0)) / p)))
+        return logit
     w = [float(Fraction(x)) for x in spec[1]]
     return lambda p: -sum(wi * pi for wi, pi in zip(w, list(p)))
 
@@ -34,6 +41,10 @@ def psi_exact(spec, p, tab=None):
         return sum(p)
     if spec == "negmax":
         return -max(p)
+    if spec == "logit":
+        r = Fraction(1)
+        for x in p: r *= (1 - min(x, Fraction(1))) / x
+        return r
     w = [Fraction(x) for x in spec[1]]
     return -sum(wi * pi for wi, pi in zip(w, p))
 
@@ -84,8 +95,8 @@ def exact_npc(p, distr, spec, plus1):
         s = psi_exact(spec, rp, tab)
         if stat_ge(spec, s, obs):
             hits += 1
-        if rp != list(p) and abs(s - obs) <= Fraction(1, 10**11) * (1 + abs(obs)):
-            skip = True
+        if rp != list(p) and abs(s - obs) <= Fraction(1, 10**11) * (1 + abs(obs)) and not (spec == "logit" and s == 0 and obs == 0):
+            skip = True      # (two statistics that are both exactly -inf compare equal in floating point as well)
     return ("ok", Fraction(cc + hits, cc + B), skip, tab)
 
 
@@ -100,6 +111,7 @@ def comb_coq(spec, tab=None):
         return "(Liptak " + clist(sorted(tab.items()), lambda kv: f"({cq(kv[0])}, {cq(kv[1])})") + ")"
     if spec == "possum": return "PosSum"
     if spec == "negmax": return "NegMax"
+    if spec == "logit": return "Logit"
     return "(NegWSum " + clist([Fraction(x) for x in spec[1]], cq) + ")"
 
 
@@ -111,4 +123,4 @@ def gen_matrix(rng, B, n, alpha):
     return [[Fraction(rng.randint(0, alpha)) for _ in range(n)] for _ in range(B)]
 
 
-COMBS = ["fisher", "liptak", "tippett", ["negwsum", ["1", "1", "1", "1", "1"]], ["negwsum", ["1", "1/2", "2", "0", "1"]], "negmax", "possum"]
+COMBS = ["fisher", "liptak", "tippett", ["negwsum", ["1", "1", "1", "1", "1"]], ["negwsum", ["1", "1/2", "2", "0", "1"]], "negmax", "possum", "logit"]
